@@ -49,7 +49,7 @@ VARIABLES mode, R, scanned, entrySet, started, k, bad
 vars == <<mode, R, scanned, entrySet, started, k, bad>>
 
 Init == /\ mode \in {"model", "trace"}
-        /\ IF mode = "model" THEN R \in SUBSET (1..Len(Pool)) ELSE R = {}
+        /\ IF mode = "model" THEN R \in {X \in SUBSET (1..Len(Pool)) : Cardinality(X) <= Doc.maxr} ELSE R = {}
         /\ scanned = {} /\ entrySet = {} /\ started = {} /\ k = 0 /\ bad = ""
 
 (* --- operational model --- *)
@@ -58,7 +58,9 @@ ScanUnit(u) == /\ mode = "model" /\ u.id \notin scanned
                /\ entrySet' = entrySet \cup {m.id : m \in {x \in ToSet(Methods) : x.unit = u.id /\
                                                           \E j \in R : UnitMatch(Pool[j], u) /\ MethodMatch(Pool[j], x)}}
                /\ UNCHANGED <<mode, R, started, k, bad>>
+(* entries are started in the order of the entry table (P3 iterates over it); one fixed order is modelled *)
 StartEntry(e) == /\ mode = "model" /\ scanned = {u.id : u \in ToSet(Units)} /\ e \in entrySet \ started
+                 /\ e = CHOOSE x \in entrySet \ started : TRUE
                  /\ started' = started \cup {e} /\ UNCHANGED <<mode, R, scanned, entrySet, k, bad>>
 ModelDone == mode = "model" /\ scanned = {u.id : u \in ToSet(Units)} /\ started = entrySet
 ModelOK == ModelDone => (entrySet = Selected(R) /\ started = Selected(R))
